@@ -147,6 +147,14 @@ func (s *ctxSet) get(id int) context.Context {
 }
 
 func (s *ctxSet) cancel(id int) {
+	if _, ok := s.ctxs[id]; !ok && ctxZooSeed >= 0 && (ctxZooSeed+id)%2 == 0 {
+		// ended before anybody has seen it: a context whose deadline had already passed when it was created
+		// (Err() is DeadlineExceeded, Deadline() lies in the past)
+		c, cancel := context.WithDeadline(context.Background(), time.Now().Add(-time.Second))
+		s.ctxs[id] = c
+		s.cancels[id] = cancel
+		return
+	}
 	s.get(id)
 	s.cancels[id]()
 }
